@@ -110,6 +110,7 @@ func (t *template) layout(ctx context.Context, w io.Writer) error {
 
 	// Build layout chain and render intermediate templates
 	for {
+		verifPoint(vpLayoutIter, depth, 0)
 		if depth >= maxDepth {
 			return fmt.Errorf("layout chain depth exceeded maximum of %d, possible circular dependency", maxDepth)
 		}
